@@ -350,9 +350,12 @@ Proof.
   pose proof (Inv_rebuild s0 HI0) as HI1.
   destruct (index_tape c (tp s0) 0 0 None true false (db s0)) as [p2 [u| | |e]]; cbn [fst] in HI1.
   - pose proof (get_root_path_rows p2) as Hr. destruct (get_root_path p2) as [p3 rr]; cbn [fst] in Hr. fin.
-  - apply K; exact HI1.
-  - apply K; exact HI1.
-  - apply K; exact HI1.
+  - pose proof (get_root_path_rows p2) as Hr. destruct (get_root_path p2) as [p3 [r1|]]; cbn [fst] in Hr; [fin|].
+    apply K. eapply Inv_eqv; [|exact HI1]. split; cbn; congruence.
+  - pose proof (get_root_path_rows p2) as Hr. destruct (get_root_path p2) as [p3 [r1|]]; cbn [fst] in Hr; [fin|].
+    apply K. eapply Inv_eqv; [|exact HI1]. split; cbn; congruence.
+  - pose proof (get_root_path_rows p2) as Hr. destruct (get_root_path p2) as [p3 [r1|]]; cbn [fst] in Hr; [fin|].
+    apply K. eapply Inv_eqv; [|exact HI1]. split; cbn; congruence.
 Qed.
 
 Theorem step_Inv s k : Inv s -> Inv (fst (step c s k)).
